@@ -1,6 +1,7 @@
 """Self-validation of a check (thorough tier).
 
-The corpus lives in /verif/seeded/<PROP>_*/ : patch.diff + meta.json.  meta.json says what the check must do on the patched
+The corpus lives in /verif/seeded/<PROP>_*/ : patch.diff + meta.json, plus /verif/twins/*/patch.diff (behaviour-preserving
+refactorings of the anchored code; every check must stay silent on each of them).  meta.json says what the check must do on the patched
 tree: "expect": "violation" (a confirmed property-breaking change: the check must exit 1) or "silent" (a change that keeps
 the property: the check must exit 0).  Each patch is applied to a scratch copy of the *current* source root (never to /repo),
 the quick check is run on the copy in a subprocess with its evidence redirected to the scratch directory, and the copy is
@@ -64,6 +65,10 @@ def run_selftest(rep, mod, prog: Program, seed: int) -> None:
         if meta.get("status") not in ("confirmed", "neutral"):
             continue
         cases.append((d, meta))
+    # behaviour-preserving refactorings (written by independent sub-agents, suite passes with each): every check must stay silent
+    for d in sorted(glob.glob(os.path.join(VERIF, "twins", "*"))):
+        if os.path.exists(os.path.join(d, "patch.diff")):
+            cases.append((d, {"expect": "silent", "status": "neutral"}))
     if not cases:
         rep.selftest = {"cases": 0, "note": "no confirmed corpus entry for this property"}
         return
